@@ -63,3 +63,12 @@ VARIANTS += [
  dict(id='c18-p5ref1-plan-operands-swapped', prop='C18', base='P5-REF1', expect='C18', file='scared/preprocesses/high_order/_base.py',
       old="self._operation(chunk_1[:, i], chunk_2[:, first: last].T).T", new="self._operation(chunk_2[:, first: last].T, chunk_1[:, i]).T"),
 ]
+
+VARIANTS += [
+ dict(id='c18-result-buffer-kept-through-getattr', prop='C18', expect='C18-D10', file='scared/preprocesses/high_order/_base.py',
+      old="        result = _np.empty((traces.shape[0], result_size), dtype=dtype)\n\n        cnt = 0\n        for i in range(chunk_1.shape[1]):\n",
+      new="        result = getattr(self, '_buffer', None)\n        if result is None or result.shape != (traces.shape[0], result_size) or result.dtype != dtype:\n            result = _np.empty((traces.shape[0], result_size), dtype=dtype)\n            self._buffer = result\n\n        cnt = 0\n        for i in range(chunk_1.shape[1]):\n"),
+ dict(id='c18-silent-getattr-of-a-flag', prop='C18', kind='silent', file='scared/preprocesses/high_order/_base.py',
+      old="        result = _np.empty((traces.shape[0], result_size), dtype=dtype)\n\n        cnt = 0\n        for i in range(chunk_1.shape[1]):\n",
+      new="        fill = getattr(self, '_fill', None)\n        result = _np.empty((traces.shape[0], result_size), dtype=dtype)\n        if fill is not None:\n            result[:] = fill\n\n        cnt = 0\n        for i in range(chunk_1.shape[1]):\n"),
+]
